@@ -5,7 +5,8 @@ types.rs, submessages/*.rs}.  Import-free (linked into `dustmodel`).
 Bytes are `Nat` (a real octet is `< 256`; nothing below relies on that, so the totality theorems hold
 for every `List Nat`).  Fixed-width integers are `Nat`/`Int` with the casts written out.
 Every Rust operation that can panic in the harness profile (debug: overflow checks on) is an explicit
-`Outcome.panic`: slice/array indexing, `+`/`-` on fixed-width integers.  The code is transcribed as it is.
+`Outcome.panic`: slice/array indexing, `+`/`-` on fixed-width integers.  The code is transcribed as it is;
+behaviours changed by the repairs in /verif/fixes are selected by `Cfg`.
 -/
 namespace DustVerif.Wire
 
@@ -37,6 +38,29 @@ def isPanic {α : Type} : Outcome α → Bool
   | _ => false
 end Outcome
 open Outcome
+
+/-! ### which repairs are in the code
+
+The model is the transcription of the repository at `main` with the patches of /verif/fixes applied
+(`Cfg.fixed`).  The earlier behaviours are kept selectable, for the regression witnesses and so that the
+differential run can follow the tree it is given (vlib/wire_common.py probes the implementation). -/
+structure Cfg where
+  /-- commit bdfece3 (fixes/D5.patch): FragmentNumberSet decoding rejects numBits > 256 and fragment-number overflow -/
+  d5 : Bool
+  /-- fixes/D-wire-3.patch: every submessage parser only sees the octets of its own submessage -/
+  ext : Bool
+  /-- fixes/D-wire-4.patch: SequenceNumberSet decoding rejects `base + numBits - 1 > i64::MAX` -/
+  snchk : Bool
+  /-- fixes/D-wire-2.patch: INFO_REPLY writes its MulticastFlag -/
+  mflag : Bool
+deriving DecidableEq, Repr
+
+/-- the tree of the first delivery (cd23860) -/
+def Cfg.orig : Cfg := { d5 := false, ext := false, snchk := false, mflag := false }
+/-- repository main at bdfece3 (D5 fix committed) -/
+def Cfg.main : Cfg := { d5 := true, ext := false, snchk := false, mflag := false }
+/-- main + fixes/D-wire-2.patch + fixes/D-wire-3.patch + fixes/D-wire-4.patch -/
+def Cfg.fixed : Cfg := { d5 := true, ext := true, snchk := true, mflag := true }
 
 /-! ### constants -/
 def P8 : Nat := 256
@@ -259,13 +283,16 @@ def readWords (le : Bool) : Nat → List Nat → Outcome (List Nat × List Nat)
 /-- `[0; 8]` with the first words overwritten (`bitmap.iter_mut().take(M)`) -/
 def padWords (ws : List Nat) : List Nat := ws ++ List.replicate (8 - ws.length) 0
 
-/-- `SequenceNumberSet::try_read_from_bytes` (submessage_elements.rs:80) -/
-def snsetRead (le : Bool) (d : List Nat) : Outcome (SNSet × List Nat) :=
+/-- `SequenceNumberSet::try_read_from_bytes` (submessage_elements.rs:80).  `chk = true` is the code with
+    fixes/D-wire-4.patch: a set that could denote a sequence number above `i64::MAX`
+    (`base.checked_add(num_bits as i64 - 1)` fails) is rejected, so that the accessor `set()` cannot overflow -/
+def snsetRead (chk : Bool) (le : Bool) (d : List Nat) : Outcome (SNSet × List Nat) :=
   match readSN le d with
   | ok (base, d1) =>
     match readU32 le d1 with
     | ok (nb, d2) =>
       if nb > 256 then err .invalidData
+      else if chk ∧ nb > 0 ∧ base + ((nb : Int) - 1) ≥ 9223372036854775808 then err .invalidData
       else
         match readWords le (min (divCeil32 nb) 8) d2 with
         | ok (ws, d3) => ok ({ base := base, numBits := nb, bitmap := padWords ws }, d3)
@@ -483,14 +510,14 @@ def dataFragRead (le : Bool) (flags len : Nat) (data : List Nat) : Outcome Sub :
     | .panic => .panic
 
 /-- gap.rs:22 -/
-def gapRead (le : Bool) (data : List Nat) : Outcome Sub :=
+def gapRead (chk le : Bool) (data : List Nat) : Outcome Sub :=
   match readBytes 4 data with
   | ok (reader, s1) =>
     match readBytes 4 s1 with
     | ok (writer, s2) =>
       match readSN le s2 with
       | ok (start, s3) =>
-        match snsetRead le s3 with
+        match snsetRead chk le s3 with
         | ok (set, _) => ok (.gap reader writer start set)
         | err e => err e
         | .panic => .panic
@@ -525,12 +552,12 @@ def heartbeatRead (le : Bool) (flags : Nat) (data : List Nat) : Outcome Sub :=
   | .panic => .panic
 
 /-- ack_nack.rs:22 -/
-def ackNackRead (le : Bool) (flags : Nat) (data : List Nat) : Outcome Sub :=
+def ackNackRead (chk le : Bool) (flags : Nat) (data : List Nat) : Outcome Sub :=
   match readBytes 4 data with
   | ok (reader, s1) =>
     match readBytes 4 s1 with
     | ok (writer, s2) =>
-      match snsetRead le s2 with
+      match snsetRead chk le s2 with
       | ok (set, s3) =>
         match readI32 le s3 with
         | ok (count, _) => ok (.ackNack (flagBit flags 1) reader writer set count)
@@ -642,24 +669,33 @@ def infoTsRead (le : Bool) (flags : Nat) (data : List Nat) : Outcome Sub :=
     | .panic => .panic
 
 /-- the `match submessage_header.submessage_id()` of overall_structure.rs:356-393 -/
-def decodeSub (guarded : Bool) (id flags len : Nat) (le : Bool) (v : List Nat) : Outcome Sub :=
-  if id = 0x06 then ackNackRead le flags v
+def decodeSub (c : Cfg) (id flags len : Nat) (le : Bool) (v : List Nat) : Outcome Sub :=
+  if id = 0x06 then ackNackRead c.snchk le flags v
   else if id = 0x15 then dataRead le flags len v
   else if id = 0x16 then dataFragRead le flags len v
-  else if id = 0x08 then gapRead le v
+  else if id = 0x08 then gapRead c.snchk le v
   else if id = 0x07 then heartbeatRead le flags v
   else if id = 0x13 then heartbeatFragRead le v
   else if id = 0x0e then infoDstRead v
   else if id = 0x0f then infoReplyRead le flags v
   else if id = 0x0c then infoSrcRead le v
   else if id = 0x09 then infoTsRead le flags v
-  else if id = 0x12 then nackFragRead guarded le v
+  else if id = 0x12 then nackFragRead c.d5 le v
   else if id = 0x01 then ok .pad
   else err .unknownMessage
 
+/-- fixes/D-wire-3.patch: the octets handed to the parser and skipped afterwards.  DDSI-RTPS 2.5 9.4.5.1.3:
+    octetsToNextHeader = 0 is an empty submessage for PAD (0x01) and INFO_TS (0x09); for every other kind the
+    submessage extends to the end of the message -/
+def extentOf (id len restLen : Nat) : Nat :=
+  if len = 0 ∧ id ≠ 0x01 ∧ id ≠ 0x09 then restLen else len
+
 /-- the submessage loop of `RtpsMessageRead::try_from` (overall_structure.rs:347-407): `fuel` iterations;
-    a submessage whose parser fails is skipped; DATA/DATA_FRAG with length 0 extend to the end -/
-def decodeLoop (guarded : Bool) : Nat → List Nat → Outcome (List Sub)
+    a submessage whose parser fails is skipped.
+    `c.ext = false` (before fixes/D-wire-3.patch): every parser is handed the whole rest of the datagram;
+    DATA/DATA_FRAG with length 0 that parse extend to the end.
+    `c.ext = true`: the parser sees `rest[..extent]` only and `extent` octets are skipped whatever it returns. -/
+def decodeLoop (c : Cfg) : Nat → List Nat → Outcome (List Sub)
   | 0, _ => ok []
   | fuel + 1, v =>
     match v with
@@ -667,15 +703,24 @@ def decodeLoop (guarded : Bool) : Nat → List Nat → Outcome (List Sub)
       let le := fl % 2 = 1
       let len := u16of le l0 l1
       if rest.length < len then ok []
-      else
-        match decodeSub guarded id fl len le rest with
+      else if c.ext then
+        match decodeSub c id fl len le (rest.take (extentOf id len rest.length)) with
         | ok s =>
-          let adv := if len = 0 ∧ s.isDataLike then rest.length else len
-          match decodeLoop guarded fuel (rest.drop adv) with
+          match decodeLoop c fuel (rest.drop (extentOf id len rest.length)) with
           | ok ss => ok (s :: ss)
           | err e => err e
           | .panic => .panic
-        | err _ => decodeLoop guarded fuel (rest.drop len)
+        | err _ => decodeLoop c fuel (rest.drop (extentOf id len rest.length))
+        | .panic => .panic
+      else
+        match decodeSub c id fl len le rest with
+        | ok s =>
+          let adv := if len = 0 ∧ s.isDataLike then rest.length else len
+          match decodeLoop c fuel (rest.drop adv) with
+          | ok ss => ok (s :: ss)
+          | err e => err e
+          | .panic => .panic
+        | err _ => decodeLoop c fuel (rest.drop len)
         | .panic => .panic
     | _ => ok []
 
@@ -683,21 +728,23 @@ def decodeLoop (guarded : Bool) : Nat → List Nat → Outcome (List Sub)
 def MAGIC : List Nat := [82, 84, 80, 83]
 
 /-- `impl TryFrom<&[u8]> for RtpsMessageRead` (overall_structure.rs:326) -/
-def decodeG (guarded : Bool) (v : List Nat) : Outcome Msg :=
+def decodeG (c : Cfg) (v : List Nat) : Outcome Msg :=
   if v.length < 20 then err .notEnoughData
   else if v.take 4 ≠ MAGIC then err .invalidData
   else
-    match decodeLoop guarded MAX_SUBMESSAGES (v.drop 20) with
+    match decodeLoop c MAX_SUBMESSAGES (v.drop 20) with
     | ok ss =>
       ok { header := { version := (v.drop 4).take 2, vendorId := (v.drop 6).take 2, guidPrefix := (v.drop 8).take 12 },
            subs := ss }
     | err e => err e
     | .panic => .panic
 
-/-- the decoder as it is in the repository -/
-def decode (v : List Nat) : Outcome Msg := decodeG false v
-/-- the decoder with fixes/D5.patch applied -/
-def decodeFixed (v : List Nat) : Outcome Msg := decodeG true v
+/-- the decoder of main + fixes/D-wire-3.patch + fixes/D-wire-4.patch (the delivered model of the code) -/
+def decode (v : List Nat) : Outcome Msg := decodeG Cfg.fixed v
+/-- the decoder of repository main at bdfece3 (regression witnesses of D-wire-3 / D-wire-4) -/
+def decodeMain (v : List Nat) : Outcome Msg := decodeG Cfg.main v
+/-- the decoder of the first delivery's tree, before the D5 fix (regression witnesses of D5 / D-wire-1) -/
+def decodeOrig (v : List Nat) : Outcome Msg := decodeG Cfg.orig v
 
 /-! ### encoder (`WriteIntoBytes`, `Submessage::write_*`, `RtpsMessageWrite::new`)
 
@@ -760,15 +807,21 @@ def Sub.id : Sub → Nat
   | .infoTs .. => 0x09
   | .pad => 0x01
 
-/-- flag octet without the endianness bit (`SubmessageHeaderWrite::new`, overall_structure.rs:546);
-    INFO_REPLY passes `&[]`: its multicast flag is never written (finding D-wire-2) -/
+/-- flag octet without the endianness bit (`SubmessageHeaderWrite::new`, overall_structure.rs:546), with
+    fixes/D-wire-2.patch: INFO_REPLY passes `&[self.multicast_flag]` -/
 def Sub.flags : Sub → Nat
   | .data q d k n .. => 2 * b2n q + 4 * b2n d + 8 * b2n k + 16 * b2n n
   | .dataFrag q k n .. => 2 * b2n q + 4 * b2n k + 8 * b2n n
   | .heartbeat f l .. => 2 * b2n f + 4 * b2n l
   | .ackNack f .. => 2 * b2n f
   | .infoTs inv .. => 2 * b2n inv
+  | .infoReply m .. => 2 * b2n m
   | _ => 0
+
+/-- before fixes/D-wire-2.patch INFO_REPLY passed `&[]`: its multicast flag was never written (D-wire-2) -/
+def Sub.flagsOld : Sub → Nat
+  | .infoReply .. => 0
+  | s => s.flags
 
 /-- `write_submessage_elements_into_bytes` -/
 def Sub.body (le : Bool) : Sub → List Nat
@@ -804,6 +857,16 @@ def headerE (h : Header) : List Nat := MAGIC ++ h.version ++ h.vendorId ++ h.gui
 def encodeE (le : Bool) (m : Msg) : List Nat := headerE m.header ++ subsE le m.subs
 /-- what the repository writes: little-endian -/
 def encode (m : Msg) : List Nat := encodeE true m
+
+/-- the writer before fixes/D-wire-2.patch (regression witness, and the differential run on an unpatched tree) -/
+def subEOld (le : Bool) (s : Sub) : List Nat :=
+  [s.id, s.flagsOld + b2n le] ++ u16E le ((s.body le).length % 65536) ++ s.body le
+def subsEOld (le : Bool) : List Sub → List Nat
+  | [] => []
+  | s :: ss => subEOld le s ++ subsEOld le ss
+def encodeOld (m : Msg) : List Nat := headerE m.header ++ subsEOld true m.subs
+/-- the writer of a given tree -/
+def encodeC (c : Cfg) (m : Msg) : List Nat := if c.mflag then encode m else encodeOld m
 
 /-! ### size of the decoded value (octets held in heap containers), for the allocation bound -/
 def paramsSize : List Param → Nat
